@@ -203,9 +203,9 @@ impl SlotChain {
             let ghost t0 = tr@; let ghost v0 = ctx.res();
         let res = s.check(Tracked(tr), &mut ctx);
         proof { lemma_push_check(t0, self.p(), tr@.last(), v0); lemma_push_check(t0, self.p(), tr@.last(), res); assert(forall|i: int| 0 <= i < t0.len() ==> #[trigger] tr@[i] == t0[i]); }
-            // check slot result: keep track of any non-pass outcome
-            if !res.is_pass() {
-                ctx.set_result(res);
+            // check slot result
+            if res.is_blocked() {
+                ctx.set_result(res.clone());
             }
         }
 
